@@ -1,7 +1,12 @@
 import Tx3Proofs.C16
+import Tx3Proofs.C16Int
 #print axioms Tx3.Json.C16_hex_roundtrip
 #print axioms Tx3.Json.C16_hexToBytes_plain
 #print axioms Tx3.Json.C16_hexToBytes_prefixed
 #print axioms Tx3.Json.C16_bool
 #print axioms Tx3.Json.C16_fromJson_total
 #print axioms Tx3.Json.C16_request_args
+#print axioms Tx3.Json.parseNatChars_natDigits
+#print axioms Tx3.Json.C16_int_decimal
+#print axioms Tx3.Json.ofBE16_toBE16
+#print axioms Tx3.Json.C16_int_hex16
